@@ -168,7 +168,7 @@ def run(chk):
                 chk.case(key=(q.text, level), nontrivial=True)
                 if len(chk.coverage["samples"]) < 4 and level == 0:
                     chk.sample({"rule": rule, "plain": p.text[:300], "rewritten": q.text[:300]})
-                states, lay = coexec.init_states(a, nstates, seed=hash(p.text) & 0xFFFFFF)
+                states, lay = coexec.init_states(a, nstates, seed=stable_hash(p.text))
                 oa, _ = coexec.run_all(m, "c15", a, states, lay)
                 ob, _ = coexec.run_all(m, "c15", b, states, lay)
                 if oa is None or ob is None:
